@@ -248,6 +248,56 @@ fn backref_strategy() -> BoxedStrategy<Node> {
         .boxed()
 }
 
+/// Two ways of reaching the same input position with different captures, followed by a term that can match
+/// empty and a back-reference: whether the rest matches depends on the capture, not only on the position.
+fn convergent_paths() -> BoxedStrategy<Node> {
+    let l = |c: char| Node::Lit(c);
+    let group = prop::sample::select(vec![
+        Node::cap(Node::Alt(vec![l('a'), Node::Cat(vec![l('a'), l('b')])])),
+        Node::cap(Node::Alt(vec![Node::Cat(vec![l('a'), l('b')]), l('a')])),
+        Node::cap(Node::Alt(vec![l('a'), Node::Cat(vec![l('a'), l('a')])])),
+        Node::cap(Node::rep(l('a'), 1, Some(2), true)),
+        Node::cap(Node::rep(l('a'), 1, Some(2), false)),
+        Node::ncap(Node::Alt(vec![Node::cap(l('a')), l('a')])),
+        Node::ncap(Node::Alt(vec![l('a'), Node::cap(l('a'))])),
+        Node::cap(Node::Alt(vec![l('a'), Node::Empty])),
+        Node::cap(Node::rep(l('a'), 0, Some(1), true)),
+    ]);
+    let resync = prop::sample::select(vec![
+        Node::ncap(Node::Alt(vec![Node::Cat(vec![l('b'), l('c')]), l('c')])),
+        Node::ncap(Node::Alt(vec![l('c'), Node::Cat(vec![l('b'), l('c')])])),
+        Node::ncap(Node::Alt(vec![Node::Cat(vec![l('a'), l('c')]), l('c')])),
+        Node::rep(l('b'), 0, Some(1), true),
+        Node::rep(l('a'), 0, Some(1), true),
+        Node::Empty,
+        l('c'),
+    ]);
+    let nullable = prop::sample::select(vec![
+        Node::rep(Node::ncap(Node::Alt(vec![l('x'), Node::Cat(vec![l('y'), l('y')])])), 0, None, true),
+        Node::rep(Node::ncap(Node::Alt(vec![l('x'), Node::Cat(vec![l('y'), l('y')])])), 0, Some(1), true),
+        Node::rep(Node::ncap(Node::Alt(vec![Node::Cat(vec![l('c'), l('d')]), l('e')])), 0, None, true),
+        Node::rep(Node::ncap(Node::Alt(vec![l('x'), Node::Cat(vec![l('y'), l('y')])])), 0, None, false),
+        Node::rep(Node::cap(Node::Alt(vec![l('x'), Node::Cat(vec![l('x'), l('y')])])), 0, Some(2), true),
+        Node::ncap(Node::Alt(vec![Node::Empty, l('x')])),
+        Node::rep(l('x'), 0, None, true),
+    ]);
+    (prop::bool::weighted(0.7), group, resync, nullable, prop::collection::vec((0u32..65536).prop_map(Node::BackRef), 1..3), prop::bool::weighted(0.7)).prop_map(|(bol, g, r, n, refs, eol)| {
+        let mut v = vec![];
+        if bol {
+            v.push(Node::Bol);
+        }
+        v.push(g);
+        v.push(r);
+        v.push(n);
+        v.extend(refs);
+        if eol {
+            v.push(Node::Eol);
+        }
+        Node::Cat(v)
+    })
+    .boxed()
+}
+
 fn many_groups_backref() -> BoxedStrategy<Node> {
     let g = prop::sample::select(vec!['a', 'b', 'A']).prop_map(|c| Node::cap(Node::Lit(c)));
     (prop::collection::vec(g, 10..13), prop::collection::vec((0u32..65536).prop_map(Node::BackRef), 1..3))
@@ -282,7 +332,11 @@ impl Prop for C19 {
         let s4 = (1u32..=13, digits, any::<bool>(), gen::flags_strategy("i"), prop::collection::vec(any::<u16>(), 0..3))
             .prop_map(|(ngroups, digits, nested, flags, perturb)| Case19::Digits { ngroups, digits, nested: nested && ngroups >= 2, flags, perturb })
             .boxed();
+        let s5 = (convergent_paths(), gen::flags_strategy("i"), gen::raw_inputs(12, 7))
+            .prop_map(|(node, flags, inputs)| Case19::Ast(AstCase { node, flags, inputs: Inputs::Raw(inputs) }))
+            .boxed();
         vec![
+            Part { name: "convergent-paths".into(), strategy: s5, cases: tier.pick(60_000, 1_000_000) },
             Part { name: "backref-shapes".into(), strategy: s1, cases: tier.pick(150_000, 3_000_000) },
             Part { name: "random-with-backrefs".into(), strategy: s2, cases: tier.pick(100_000, 2_000_000) },
             Part { name: "many-groups".into(), strategy: s3, cases: tier.pick(20_000, 300_000) },
